@@ -271,3 +271,10 @@ CASES += [
          old="      auto const  handler = stored_group.mpArgHandler.get();\n\n      if ((handler->mArguments.findExactArg( key) != nullptr)",
          new="      auto const  handler = mArgGroups.front().mpArgHandler.get();\n\n      if ((handler->mArguments.findExactArg( key) != nullptr)"),
 ]
+
+CASES += [
+    dict(id='c03-orig-subgroup-cursor-advanced-early', prop='C03', file=H, expect='R12',
+         old="      auto  subAI( ai);\n      ++subAI;\n", new="      ++ai;\n      auto  subAI( ai);\n"),
+    dict(id='c03-eq-subgroup-cursor-next-form', prop='C03', file=H, expect=None,
+         old="      auto  subAI( ai);\n      ++subAI;\n", new="      auto  subAI( ai);\n      subAI++;\n"),
+]
